@@ -1,5 +1,5 @@
 (** Property C15 — the theorems the check counts as obligations. *)
-From HS Require Import Base.Prelude C14.Model C14.LsmProofs C15.Model C15.Proofs.
+From HS Require Import Base.Prelude C14.Model C14.LsmProofs C15.Model C15.Proofs C15.RestProofs.
 Local Open Scope Z_scope.
 
 (** After a crash the log is exactly the entries with seq <= synced_up_to. *)
@@ -27,6 +27,19 @@ Theorem c15_durable_at_rest : forall bl, (forall ks x, In x ks -> bl ks x = true
   forall k, d_get bl (d_recover (d_crash d')) k = spec_of (map to_op ws) k.
 Proof. exact durable_at_rest. Qed.
 Print Assumptions c15_durable_at_rest.
+
+(** Crash at rest, ANY sync policy (every write, batch, periodic), any clock:
+    the recovered tree is exactly the tree after a prefix of the workload that
+    contains every write with sequence number <= synced_up_to: synced writes
+    are readable with their latest durable value, nothing is resurrected,
+    nothing unwritten appears. *)
+Theorem c15_durable_at_rest_prefix : forall bl, (forall ks x, In x ks -> bl ks x = true) ->
+  forall c p fuel nows ws d', (nlev c >= 1)%nat ->
+  d_seq_exec fuel c p bl nows (d_init c) ws = Some d' ->
+  exists j : nat, w_synced (d_wal d') <= Z.of_nat j /\ (j <= length ws)%nat /\
+    forall k, d_get bl (d_recover (d_crash d')) k = spec_of (firstn j (map to_op ws)) k.
+Proof. exact durable_at_rest_prefix. Qed.
+Print Assumptions c15_durable_at_rest_prefix.
 
 (** Durability at ANY crash point: REFUTED on the faithful model (known finding
     C15-wal-truncated-past-unflushed). *)
